@@ -56,6 +56,8 @@ def gen_value(rng, U: Universe, f: FS, hostile: float = 0.15) -> Any:
         return tuple(rng.choice([0, 1, 2, 3]) for _ in range(rng.randint(0, 3)))
     if k == "tstr":
         return tuple(gen_str(rng, hostile) for _ in range(rng.randint(0, 3)))
+    if k == "nested":
+        return rng.choice([((1, 2), 3), ((1, 2, 3),), (1, (2, 3)), ((1,), (2, 3)), (1, 2, 3), ((),), (), ("pkg", ("mod", "cls")), ("pkg", ("mod",), "cls"), (("pkg", "mod"), "cls")])
     if k == "flags":
         return U.module.__dict__[f.ann](rng.choice([0, 1, 2, 3, 4, 8, 12, 5]))
     if k == "senum":
